@@ -288,6 +288,8 @@ def run(ctx):
         w.run()
         bst["runs"] += 1
         bst["overrun"] += w.verdict == "overrun"
+        bst["justified_stalls"] = bst.get("justified_stalls", 0) + (w.stall is not None)
+        bst["inconclusive_step_budget"] = bst.get("inconclusive_step_budget", 0) + (w.verdict == "overrun" and w.stall is None)
         bst["policies"][pk] = bst["policies"].get(pk, 0) + 1
         bst["granularity"][scn.granularity] = bst["granularity"].get(scn.granularity, 0) + 1
         nz = 0
@@ -312,7 +314,7 @@ def run(ctx):
                 "expected": "C04 monitor clean: wire = concatenation of the lone responses (computed under the default buffer limits) of a "
                             "prefix of the pipeline, whatever representation the output buffers go through; no empty send; quiescent",
                 "observed": text, "wire_hex": w.wire.hex()[:600], "buffer_migrations": [list(m) for m in w.migrations][:12],
-                "policy": pk})
+                "policy": pk, "stall_justification": w.stall})
             if key not in buf_best or len(json.dumps(rep)) < len(json.dumps(buf_best[key])):
                 buf_best[key] = rep
         return w
@@ -382,6 +384,8 @@ def run(ctx):
         w.run()
         sst["runs"] += 1
         sst["overrun"] += w.verdict == "overrun"
+        sst["justified_stalls"] = sst.get("justified_stalls", 0) + (w.stall is not None)
+        sst["inconclusive_step_budget"] = sst.get("inconclusive_step_budget", 0) + (w.verdict == "overrun" and w.stall is None)
         sst["segmentation_kinds"][kind] = sst["segmentation_kinds"].get(kind, 0) + 1
         sst["lookahead"][la] = sst["lookahead"].get(la, 0) + 1
         sst["policies"][pk] = sst["policies"].get(pk, 0) + 1
@@ -405,7 +409,8 @@ def run(ctx):
                 "segmentation": {"kind": kind, "cuts": list(scn.cuts), "pieces_hex": [x[1].hex() for x in scn.client_script() if x[0] == "send"][:40]},
                 "expected": "C04 monitor clean: the application is called with exactly the (method, path, body) of a prefix of the pipeline, in "
                             "order, and the wire is the concatenation of the lone responses (each request alone, delivered whole), whatever the segmentation",
-                "observed": text, "application_calls": [[c[0], c[1], c[2]] for c in w.calls], "wire_hex": w.wire.hex()[:600]})
+                "observed": text, "application_calls": [[c[0], c[1], c[2]] for c in w.calls], "wire_hex": w.wire.hex()[:600],
+                "stall_justification": w.stall})
             if key not in seg_best or len(json.dumps(rep)) < len(json.dumps(seg_best[key])):
                 seg_best[key] = rep
         return w
@@ -522,7 +527,9 @@ def replay(data):
         w = H.BufWorld(scn, schedule=data["choices"])
         w.run()
         bad = H.buf_monitor(w)
-        print("kind=monitor-buf scenario=%s verdict=%s wire=%d bytes migrations=%r" % (data.get("scenario_name"), w.verdict, len(w.wire), w.migrations))
+        print("kind=monitor-buf scenario=%s verdict=%s steps=%d wire=%d bytes (%s) migrations=%r" % (
+            data.get("scenario_name"), w.verdict, len(w.sched.choices), len(w.wire), H.check_wire(scn, w.wire)[3], w.migrations))
+        print("stall verdict now: %r" % (H.stall_verdict(w),))
         print("monitor now: %r" % (bad,))
         print("observed then: %s" % (data.get("observed"),))
         return 1 if bad else 0
